@@ -869,21 +869,29 @@ theorem get_chunks (f : FImg) : (fimgToJson f).get kChunks =
 
 /-- **Clause: a file image written as JSON parses back to an equal value** — for ALL file images,
 including sparse chunk maps: the version string must be a well-formed `X.Y.Z` of at least 2.0.0
-(anything else makes `from_json` fail or panic — C12's business), and an image that claims format
-2.0.x must not carry the two fields that format does not have (`accessed`, `full_path`).
+(anything else makes `from_json` fail — or, before the C12 repair, panic), and an image that claims
+format 2.0.x must not carry the two fields that format does not have (`accessed`, `full_path`).
+For the current (`bounded`) reader the image must also respect the ranges it enforces:
+`1 ≤ chunk_len ≤ 65536` and chunk indices `≤ 0xffffff`.
 The `json` crate is the parameter: this is about the tree handed to / received from it. -/
-theorem fimg_json_roundtrip (f : FImg) (vt : Nat × Nat × Nat)
+theorem fimg_json_roundtrip (jc : JsonChk) (f : FImg) (vt : Nat × Nat × Nat)
     (hv : versionTuple f.fimgVersion = some vt) (h20 : verLt vt (2,0,0) = false)
     (hold : verLt vt (2,1,0) = true → f.accessed = [] ∧ f.fullPath = [])
-    (hb : FImgBytesOk f) (hs : SortedKeys f.chunks) :
-    fimgFromJson (fimgToJson f) = .ok f := by
+    (hb : FImgBytesOk f) (hs : SortedKeys f.chunks)
+    (hr : jc = .bounded → (1 ≤ f.chunkLen ∧ f.chunkLen ≤ maxChunkLen) ∧ ∀ p ∈ f.chunks, p.1 ≤ maxChunkIndex) :
+    fimgFromJson jc (fimgToJson f) = .ok f := by
+  have hcl : ¬ (jc = .bounded ∧ (f.chunkLen < 1 ∨ maxChunkLen < f.chunkLen)) := by
+    rintro ⟨h1, h2⟩
+    have := (hr h1).1
+    omega
   unfold fimgFromJson
   simp only [get_version, get_fs, get_cl, get_path, get_chunks, J.asStr, J.asNum, hv, h20, parseHexField,
     get_eof, get_typ, get_aux, get_acc, get_accd, get_cr, get_md, get_vs, get_mv,
     hexDec_hexEncUp _ hb.eof, hexDec_hexEncUp _ hb.fsType, hexDec_hexEncUp _ hb.aux, hexDec_hexEncUp _ hb.access,
     hexDec_hexEncUp _ hb.accessed, hexDec_hexEncUp _ hb.created, hexDec_hexEncUp _ hb.modified,
     hexDec_hexEncUp _ hb.version, hexDec_hexEncUp _ hb.minVersion, J.entries, Bool.false_eq_true, if_false]
-  have hch := parseChunks_roundtrip f.chunks [] hs (fun _ _ a ha => by cases ha) hb.chunks
+  rw [if_neg hcl]
+  have hch := parseChunks_roundtrip jc f.chunks [] hs (fun _ _ a ha => by cases ha) hb.chunks (fun h => (hr h).2)
   rw [hch]
   cases hn : verLt vt (2,1,0) with
   | false => simp
@@ -895,8 +903,13 @@ theorem fimg_json_roundtrip (f : FImg) (vt : Nat × Nat × Nat)
     subst h1; subst h2
     rfl
 
-example : fimgFromJson (fimgToJson { newFimg .prodos 512 [65] with chunks := [(0,[1,2]),(9,[3]),(10,[]),(70000,[255])] })
+example : fimgFromJson .bounded (fimgToJson { newFimg .prodos 512 [65] with chunks := [(0,[1,2]),(9,[3]),(10,[]),(70000,[255])] })
     = .ok { newFimg .prodos 512 [65] with chunks := [(0,[1,2]),(9,[3]),(10,[]),(70000,[255])] } := by decide +kernel
+
+/-- the two readers differ exactly where the input is malformed: a bad version string was a panic
+and is now an error; an out-of-range chunk length or index is now refused -/
+example : fimgFromJson .legacy (.obj [(kFimgVersion, .str [97,98,99])]) = .panic ∧
+    fimgFromJson .bounded (.obj [(kFimgVersion, .str [97,98,99])]) = .err := by decide +kernel
 
 /-! ## Part 3: records (partial) -/
 
